@@ -350,6 +350,17 @@ impl Drop for FrameCloser {
     }
 }
 
+/// Spans that live on the unwinding stack: finished (dropped) while the thread is panicking.
+struct SpanDropper(Vec<u32>);
+impl Drop for SpanDropper {
+    fn drop(&mut self) {
+        for l in &self.0 {
+            let s = lock(&SPANS).as_mut().and_then(|m| m.remove(l));
+            drop(s);
+        }
+    }
+}
+
 /// payload of the panics the harness raises on behalf of user code
 struct UserPanic;
 
@@ -845,7 +856,7 @@ pub fn exec_op(ctx: &mut WorkerCtx, op: &Op) {
                 std::thread::sleep(Duration::from_millis(1));
             }
         }
-        Op::Unwind { steps } => {
+        Op::Unwind { steps, drops } => {
             set_result(ix, OpResult { t0, t1: now_ns(), sys0, closures: 0, kind: ResKind::None, done: true });
             let floor = ctx.frames.len();
             let ctxp = ctx as *mut WorkerCtx;
@@ -854,6 +865,8 @@ pub fn exec_op(ctx: &mut WorkerCtx, op: &Op) {
             // the caller contains the panic. The harness keeps guards in `ctx.frames` rather than
             // on the Rust stack, so a stack object drops them during the unwinding.
             let r = std::panic::catch_unwind(std::panic::AssertUnwindSafe(|| {
+                // declared first, dropped last: guards and local spans go before the spans
+                let _spans = SpanDropper(drops.clone());
                 let _closer = FrameCloser(ctxp, floor);
                 let ctx = unsafe { &mut *ctxp };
                 for st in steps.iter() {
